@@ -1008,10 +1008,11 @@ func run(c *vf.Ctx) {
 				probeTemplate(c, w, tp)
 			}
 			unauthorizedFoundation(c, w)
+			coveredBinding(c, w)
 		})
 		c.Count("traces_validated_against_impl", 1)
 	})
-	need := []string{"untampered_accepted", "tampered_rejected", "era_replay_rejected", "unauthorized_foundation_rejected"}
+	need := []string{"untampered_accepted", "tampered_rejected", "era_replay_rejected", "unauthorized_foundation_rejected", "partial_sighash_binding_checked"}
 	for _, tp := range tps {
 		need = append(need, "template:"+tp.name)
 	}
